@@ -19,12 +19,15 @@ func init() {
 var c10Prelude = []string{
 	"g = 0",
 	"fadd = func(a, b) {a + b}",
-	`ferr = func(n) {if n == 0 {error("deep failure")}; for i = 2 {ferr(n - 1)}}`,
+	`ferr = func(n) {if n == 0 {error("deep failure")}; for fi = 2 {ferr(n - 1)}}`,
 	"fdeep = func(n) {fdeep(n + 1) + 1}",
 	"fpanic = func() {fadd(1, fdeep(1))}",
 	"fbig = func() {len([1] * 4000000000000)}",
 	"fcount = func(n) {if n <= 0 {return 0}; 1 + fcount(n - 1)}",
 	"KC = 1", "fconst = func(KC) {KC}",
+	// loop variables of the failing loops: bound beforehand to the value they have when the loop fails (first iteration), so
+	// that the failing input completes no side effect (a loop assigns its variable like `=`, with or without registers)
+	"li = 0", "lj = 0",
 	"mgood = macro(x) {quote(unquote(x) + 1)}",
 	"mboom = macro(x) {func boom(n) {boom(n + 1)}; boom(0); quote(unquote(x))}",
 	`merr = macro(x) {error("in macro body")}`,
@@ -76,9 +79,9 @@ func c10Fail(kind string) string {
 	case "err-nested-calls":
 		return "ferr(3)"
 	case "err-in-top-loop":
-		return `for i = 3 {error("in loop")}`
+		return `for li = 3 {error("in loop")}`
 	case "err-in-nested-loops":
-		return `for i = 3 {for j = 2 {if j == 1 {ferr(1)}}}`
+		return `for li = 3 {for lj = 2 {ferr(1)}}`
 	case "panic-in-function":
 		return "fpanic()"
 	case "depth-overflow":
@@ -86,7 +89,7 @@ func c10Fail(kind string) string {
 	case "memory-guard":
 		return "fbig()"
 	case "panic-in-top-loop":
-		return "for i = 2 {fdeep(1)}"
+		return "for li = 2 {fdeep(1)}"
 	case "memory-guard-top-level":
 		return "[1, 2] * 4000000000000"
 	case "depth-overflow-expression":
